@@ -88,6 +88,13 @@ def shapes():
     S['parens'] = lambda f, l: [[f.parens(f.or_([f.and_([A(f, l)]), f.and_([A(f, l)])])), A(f, l)]]
     S['parens-nested'] = lambda f, l: [[f.parens(f.or_([f.and_([f.parens(f.or_([f.and_([A(f, l)])]))])]))]]
     S['and-parens-or'] = lambda f, l: [[A(f, l), f.parens(f.or_([f.and_([A(f, l)]), f.and_([C(f, l)])]))]]
+    # a group that begins (or ends) with another group and carries further terms
+    G = lambda f, l, ands: f.parens(f.or_([f.and_(a) for a in ands]))
+    S['parens-group-and'] = lambda f, l: [[G(f, l, [[G(f, l, [[A(f, l)]]), A(f, l)]])]]
+    S['parens-group-or'] = lambda f, l: [[G(f, l, [[G(f, l, [[A(f, l)]])], [A(f, l)]])]]
+    S['parens-and-group'] = lambda f, l: [[G(f, l, [[A(f, l), G(f, l, [[A(f, l)]])]])]]
+    S['parens-group-and-or'] = lambda f, l: [[G(f, l, [[G(f, l, [[A(f, l)], [A(f, l)]]), A(f, l)]])], [A(f, l)]]
+    S['parens-two-groups'] = lambda f, l: [[G(f, l, [[G(f, l, [[A(f, l)]]), G(f, l, [[A(f, l)]])]])]]
     return S
 
 
@@ -156,7 +163,7 @@ def post(ex, t, r):
 def run(ctx):
     prog = load.program(ctx.repo, ctx.cache)
     T = templates(ctx)
-    ctx.cov['bounds'] = {'names': '1-3 symbolic bytes', 'trees': '<= 3 terms, parentheses depth <= 2', 'literals': 'every kind the filter syntax admits, symbolic payload of 1-2 chars/digits',
+    ctx.cov['bounds'] = {'names': '1-3 symbolic bytes', 'trees': '<= 3 terms, parentheses depth <= 2 (groups that begin / end with a group and carry further terms included)', 'literals': 'every kind the filter syntax admits, symbolic payload of 1-2 chars/digits',
                          'spacing': 'space, tab, LF, two spaces, CRLF or nothing between tokens (forked per gap)'}
     S = sym.explore_templates(ctx, __import__('props.C08', fromlist=['x']), T, prog, split_depth=4, budget_s=240 if ctx.quick() else 1500)
     sym.native_check(ctx, S)
